@@ -7,13 +7,14 @@ import PromProofs.QuantileNative
 namespace Prom.Quantile
 open FOps
 
+theorem XR.isNaN_fin (x : Rat) : XR.isNaN (.fin x) = false := rfl
+
 @[simp] theorem fops_half : (FOps.half : XR) = .fin (1 / 2) := rfl
 
 /-- rational view of a consistent native histogram -/
 structure RHist (h : NHist XR) (L : List RB) (N : Rat) : Prop where
   fwd : h.fwd = L.map RB.toN
   rev : h.rev = L.reverse.map RB.toN
-  sum : h.sum ≠ .nan
   count : h.count = .fin N
   pos : 0 < N
   tot : total L = N
@@ -22,27 +23,27 @@ structure RHist (h : NHist XR) (L : List RB) (N : Rat) : Prop where
 /-- `b` (preceded by `pre`) is the bucket `HistogramQuantile` interpolates in for quantile `q`:
     cumulative count before `b` ≤ q·N ≤ cumulative count including `b`, `b` non-empty; `tie` records
     which neighbour is taken when the rank falls on a bucket boundary (forward iteration for q < 1/2,
-    reverse iteration otherwise). -/
-structure Pick (L : List RB) (N q : Rat) (pre : List RB) (b : RB) (rem : List RB) : Prop where
+    reverse iteration otherwise; forward iteration for every q when Sum is NaN, `nanSum`). -/
+structure Pick (nanSum : Bool) (L : List RB) (N q : Rat) (pre : List RB) (b : RB) (rem : List RB) : Prop where
   split : L = pre ++ b :: rem
   cpos : 0 < b.c
   lo : total pre ≤ q * N
   hi : q * N ≤ total pre + b.c
-  tie : (q < 1 / 2 ∧ (total pre < q * N ∨ total pre = 0)) ∨
-        (1 / 2 ≤ q ∧ (q * N < total pre + b.c ∨ total pre + b.c = N))
+  tie : ((nanSum = true ∨ q < 1 / 2) ∧ (total pre < q * N ∨ total pre = 0)) ∨
+        ((nanSum = false ∧ 1 / 2 ≤ q) ∧ (q * N < total pre + b.c ∨ total pre + b.c = N))
 
-theorem hq_unfold (h : NHist XR) (N q : Rat) (hN : h.count = .fin N) (hs : h.sum ≠ .nan) (hpos : 0 < N)
+theorem hq_unfold (fixed : Bool) (h : NHist XR) (N q : Rat) (hN : h.count = .fin N) (hpos : 0 < N)
     (h0 : 0 ≤ q) (h1 : q ≤ 1) :
-    histogramQuantile (.fin q) h =
-      if q < 1 / 2 then hqTail h true (.fin (q * N)) (hqWalk (.fin (q * N)) ⟨.fin 0, .fin 0, .fin 0⟩ (.fin 0) h.fwd)
-      else hqTail h false (.fin ((1 - q) * N)) (hqWalk (.fin ((1 - q) * N)) ⟨.fin 0, .fin 0, .fin 0⟩ (.fin 0) h.rev) := by
-  have hs' : XR.isNaN h.sum = false := by cases hh : h.sum <;> simp_all [XR.isNaN]
+    histogramQuantileWith fixed (.fin q) h =
+      if XR.isNaN h.sum = true ∨ q < 1 / 2 then
+        hqTail fixed h true (.fin (q * N)) (hqWalk (.fin (q * N)) ⟨.fin 0, .fin 0, .fin 0⟩ (.fin 0) h.fwd)
+      else hqTail fixed h false (.fin ((1 - q) * N)) (hqWalk (.fin ((1 - q) * N)) ⟨.fin 0, .fin 0, .fin 0⟩ (.fin 0) h.rev) := by
   have a : ¬ q < 0 := by grind
   have b : ¬ 1 < q := by grind
   have c : ¬ N = 0 := by grind
   rw [histogramQuantile_eq]
-  by_cases hq : q < 1 / 2 <;>
-    simp [hN, hs', a, b, c, hq, XR.isNaN]
+  cases hs : XR.isNaN h.sum <;> by_cases hq : q < 1 / 2 <;>
+    simp [hN, hs, a, b, c, hq, XR.isNaN_fin]
 
 theorem total_split_le {L pre rem : List RB} {b : RB} (hL : L = pre ++ b :: rem) (ok : ∀ x ∈ L, 0 ≤ x.c) :
     0 ≤ total pre ∧ 0 ≤ total rem ∧ total L = total pre + b.c + total rem := by
@@ -50,16 +51,17 @@ theorem total_split_le {L pre rem : List RB} {b : RB} (hL : L = pre ++ b :: rem)
   refine ⟨total_nonneg _ (fun x hx => ok x (by simp [hx])), total_nonneg _ (fun x hx => ok x (by simp [hx])), ?_⟩
   simp only [total_append, total]; grind
 
-theorem hq_eval {h : NHist XR} {L : List RB} {N : Rat} (R : RHist h L N) (q : Rat) (h0 : 0 ≤ q) (h1 : q ≤ 1) :
-    ∃ pre b rem, Pick L N q pre b rem ∧
-      histogramQuantile (.fin q) h = hqOut h b ((q * N - total pre) / b.c) := by
+theorem hq_eval (fixed : Bool) {h : NHist XR} {L : List RB} {N : Rat} (R : RHist h L N) (hs : fixed = true ∨ h.sum ≠ .nan)
+    (q : Rat) (h0 : 0 ≤ q) (h1 : q ≤ 1) :
+    ∃ pre b rem, Pick (XR.isNaN h.sum) L N q pre b rem ∧
+      histogramQuantileWith fixed (.fin q) h = hqOut h b ((q * N - total pre) / b.c) := by
   have okc : ∀ x ∈ L, 0 ≤ x.c := fun x hx => (R.ok x hx).2
   have hqN : q * N ≤ N := by
     have := Rat.mul_le_mul_of_nonneg_right h1 (Rat.le_of_lt R.pos)
     grind
   have hqN0 : 0 ≤ q * N := Rat.mul_nonneg h0 (Rat.le_of_lt R.pos)
-  rw [hq_unfold h N q R.count R.sum R.pos h0 h1]
-  by_cases hq : q < 1 / 2
+  rw [hq_unfold fixed h N q R.count R.pos h0 h1]
+  by_cases hq : XR.isNaN h.sum = true ∨ q < 1 / 2
   · simp only [hq, if_true, R.fwd]
     obtain ⟨pre, b, rem, e, hw, c1, c2, c3⟩ := hqWalk_spec (q * N) L 0 ⟨.fin 0, .fin 0, .fin 0⟩ okc
       (by rw [R.tot]; grind) (by rw [R.tot]; exact R.pos)
@@ -67,11 +69,18 @@ theorem hq_eval {h : NHist XR} {L : List RB} {N : Rat} (R : RHist h L N) (q : Ra
     rw [R.tot] at t3
     refine ⟨pre, b, rem, ⟨e, c1, ?_, by grind, Or.inl ⟨hq, by grind⟩⟩, ?_⟩
     · rcases c3 with c3 | c3 <;> grind
-    · rw [hw, hqTail_eval h R.sum N R.count true _ _ b _ c1 (by grind) c2]
+    · rw [hw, hqTail_eval fixed h hs N R.count true _ _ b _ c1 (by grind) c2]
       congr 1
       simp only [if_true]
       congr 1; grind
   · simp only [hq, if_false, R.rev]
+    have hq' : XR.isNaN h.sum = false ∧ 1 / 2 ≤ q := by
+      constructor
+      · cases hh : XR.isNaN h.sum
+        · rfl
+        · exact absurd (Or.inl hh) hq
+      · have : ¬ q < 1 / 2 := fun hh => hq (Or.inr hh)
+        grind
     have hr : (1 - q) * N = N - q * N := by grind
     obtain ⟨pre, b, rem, e, hw, c1, c2, c3⟩ := hqWalk_spec ((1 - q) * N) L.reverse 0 ⟨.fin 0, .fin 0, .fin 0⟩
       (fun x hx => okc x (by simpa using hx)) (by rw [total_reverse, R.tot]; grind) (by rw [total_reverse, R.tot]; exact R.pos)
@@ -81,14 +90,14 @@ theorem hq_eval {h : NHist XR} {L : List RB} {N : Rat} (R : RHist h L N) (q : Ra
     obtain ⟨t1, t2, t3⟩ := total_split_le e' okc
     rw [R.tot, total_reverse, total_reverse] at t3
     rw [total_reverse] at t1 t2
-    refine ⟨rem.reverse, b, pre.reverse, ⟨e', c1, ?_, ?_, Or.inr ⟨by grind, ?_⟩⟩, ?_⟩
+    refine ⟨rem.reverse, b, pre.reverse, ⟨e', c1, ?_, ?_, Or.inr ⟨hq', ?_⟩⟩, ?_⟩
     · rw [total_reverse]; grind
     · rw [total_reverse]; grind
     · rw [total_reverse]
       rcases c3 with c3 | c3
       · left; grind
       · right; grind
-    · rw [hw, hqTail_eval h R.sum N R.count false _ _ b _ c1 (by grind) c2]
+    · rw [hw, hqTail_eval fixed h hs N R.count false _ _ b _ c1 (by grind) c2]
       congr 1
       rw [total_reverse]
       simp only [Bool.false_eq_true, if_false]
@@ -138,7 +147,7 @@ theorem pairwise_decomp {α : Type} {R : α → α → Prop} {pre mid rem : List
   have := (List.pairwise_append.mp P).2.1
   exact (List.pairwise_cons.mp this).1 b2 (by simp)
 
-theorem pick_frac {L : List RB} {N q : Rat} {pre rem : List RB} {b : RB} (P : Pick L N q pre b rem) :
+theorem pick_frac {ns : Bool} {L : List RB} {N q : Rat} {pre rem : List RB} {b : RB} (P : Pick ns L N q pre b rem) :
     0 ≤ (q * N - total pre) / b.c ∧ (q * N - total pre) / b.c ≤ 1 :=
   ⟨rat_div_nonneg (by have := P.lo; grind) P.cpos, rat_div_le_one (by have := P.hi; grind) P.cpos⟩
 
@@ -146,10 +155,11 @@ theorem pick_frac {L : List RB} {N q : Rat} {pre rem : List RB} {b : RB} (P : Pi
 theorem hq_in_bucket_core (interp : XR → XR → XR → XR)
     (G : ∀ l u f1 f2 : Rat, l ≤ u → 0 ≤ f1 → f1 ≤ f2 → f2 ≤ 1 →
       ∃ v1 v2, interp (.fin l) (.fin u) (.fin f1) = .fin v1 ∧ interp (.fin l) (.fin u) (.fin f2) = .fin v2 ∧ l ≤ v1 ∧ v1 ≤ v2 ∧ v2 ≤ u)
-    {h : NHist XR} {L : List RB} {N : Rat} (R : RHist h L N) (q : Rat) (h0 : 0 ≤ q) (h1 : q ≤ 1) :
-    ∃ pre b rem, Pick L N q pre b rem ∧ ∃ v, evalR interp (histogramQuantile (.fin q) h) = .fin v ∧
+    (fixed : Bool) {h : NHist XR} {L : List RB} {N : Rat} (R : RHist h L N) (hs : fixed = true ∨ h.sum ≠ .nan)
+    (q : Rat) (h0 : 0 ≤ q) (h1 : q ≤ 1) :
+    ∃ pre b rem, Pick (XR.isNaN h.sum) L N q pre b rem ∧ ∃ v, evalR interp (histogramQuantileWith fixed (.fin q) h) = .fin v ∧
       adjLo h b ≤ v ∧ v ≤ adjHi h b := by
-  obtain ⟨pre, b, rem, P, e⟩ := hq_eval R q h0 h1
+  obtain ⟨pre, b, rem, P, e⟩ := hq_eval fixed R hs q h0 h1
   have hb : b.l ≤ b.u := (R.ok b (by rw [P.split]; simp)).1
   obtain ⟨f0, f1⟩ := pick_frac P
   obtain ⟨v1, _, e1, _, l1, _, u1⟩ := hqOut_bounds interp G h b hb _ _ f0 Rat.le_refl f1
@@ -159,13 +169,14 @@ theorem hq_in_bucket_core (interp : XR → XR → XR → XR)
 theorem hq_mono_core (interp : XR → XR → XR → XR)
     (G : ∀ l u f1 f2 : Rat, l ≤ u → 0 ≤ f1 → f1 ≤ f2 → f2 ≤ 1 →
       ∃ v1 v2, interp (.fin l) (.fin u) (.fin f1) = .fin v1 ∧ interp (.fin l) (.fin u) (.fin f2) = .fin v2 ∧ l ≤ v1 ∧ v1 ≤ v2 ∧ v2 ≤ u)
-    {h : NHist XR} {L : List RB} {N : Rat} (R : RHist h L N) (PW : L.Pairwise (fun a b => a.u ≤ b.l))
+    (fixed : Bool) {h : NHist XR} {L : List RB} {N : Rat} (R : RHist h L N) (hs : fixed = true ∨ h.sum ≠ .nan)
+    (PW : L.Pairwise (fun a b => a.u ≤ b.l))
     (q1 q2 : Rat) (h0 : 0 ≤ q1) (h12 : q1 ≤ q2) (h1 : q2 ≤ 1) :
-    ∃ v1 v2, evalR interp (histogramQuantile (.fin q1) h) = .fin v1 ∧
-      evalR interp (histogramQuantile (.fin q2) h) = .fin v2 ∧ v1 ≤ v2 := by
+    ∃ v1 v2, evalR interp (histogramQuantileWith fixed (.fin q1) h) = .fin v1 ∧
+      evalR interp (histogramQuantileWith fixed (.fin q2) h) = .fin v2 ∧ v1 ≤ v2 := by
   have okc : ∀ x ∈ L, 0 ≤ x.c := fun x hx => (R.ok x hx).2
-  obtain ⟨pre1, b1, rem1, P1, e1⟩ := hq_eval R q1 h0 (by grind)
-  obtain ⟨pre2, b2, rem2, P2, e2⟩ := hq_eval R q2 (by grind) h1
+  obtain ⟨pre1, b1, rem1, P1, e1⟩ := hq_eval fixed R hs q1 h0 (by grind)
+  obtain ⟨pre2, b2, rem2, P2, e2⟩ := hq_eval fixed R hs q2 (by grind) h1
   have hb1 : b1.l ≤ b1.u := (R.ok b1 (by rw [P1.split]; simp)).1
   have hb2 : b2.l ≤ b2.u := (R.ok b2 (by rw [P2.split]; simp)).1
   have hρ : q1 * N ≤ q2 * N := Rat.mul_le_mul_of_nonneg_right h12 (Rat.le_of_lt R.pos)
@@ -210,14 +221,14 @@ end Prom.Quantile
 namespace Prom.Quantile
 
 /-- the components of `ConsistentHist` give the rational view -/
-theorem rhist_of (h : NHist XR) (hrev : h.rev = h.fwd.reverse) (hsum : h.sum ≠ .nan)
+theorem rhist_of (h : NHist XR) (hrev : h.rev = h.fwd.reverse)
     (hcnt : ∃ N, h.count = .fin N ∧ 0 < N ∧ sumCounts (.fin 0) h.fwd = .fin N)
     (hb : ∀ b ∈ h.fwd, ∃ l u c, b.lower = .fin l ∧ b.upper = .fin u ∧ b.count = .fin c ∧ l ≤ u ∧ 0 ≤ c)
     (hp : h.fwd.Pairwise (fun a b => XR.le a.upper b.lower = true)) :
     ∃ L N, RHist h L N ∧ L.Pairwise (fun a b => a.u ≤ b.l) := by
   obtain ⟨L, e, ok⟩ := lift_buckets h.fwd hb
   obtain ⟨N, hN, hpos, hsumc⟩ := hcnt
-  refine ⟨L, N, ⟨e, by rw [hrev, e, List.map_reverse], hsum, hN, hpos, ?_, ok⟩, ?_⟩
+  refine ⟨L, N, ⟨e, by rw [hrev, e, List.map_reverse], hN, hpos, ?_, ok⟩, ?_⟩
   · rw [e, sumCounts_map] at hsumc
     injection hsumc with hh
     grind
